@@ -275,6 +275,7 @@ func cmdCheck(args []string) int {
 // runContractProperty: the generic, contract driven check.
 func runContractProperty(e *Engine, res *checkResult, timeout int, two bool, work string, stats *solveStats) {
 	p := res.prop
+	e.curProp = p
 	funcs := e.functionsFor(p)
 	rel := e.relevantFuncs(p)
 	byName := map[string]*ssa.Function{}
